@@ -48,3 +48,4 @@ mk C06 lifted-sized-by-type-map value_set.go 's/result := make\(\[\]reflect\.Typ
 mk C12 option-writes-captured args.go 's/^\tname := strings\.ToLower\(n\)$/\tname := n/; s/^\t\tif a\.namedSub\[name\] == nil \{/\t\tname = strings.ToLower(name)\n\t\tif a.namedSub[name] == nil {/'
 mk C05 chaining-rule-removed call.go '/We need to allow any typed argument to depend on a typed output/,/^\t}$/{s/g\.AddEdgeWeighted\(v, g\.Add\(&typedOutputVertex\{/_ = (\&typedOutputVertex{/; s/^\t\t\}\), weightTyped\)$/\t\t})/}'
 ls /verif/fixtures | wc -l
+# fixtures/C15-fromsignature-empty-guard-removed and C06-fromsignature-empty-guard-removed are the reverse of fix 25d796e (git diff -R); C08-filter-gate-removed is hand-written: not regenerated here
